@@ -18,9 +18,11 @@ MANIFEST = {
             "documented `force` option may bypass the dependence checks. "
             "This decides that the guards are still executed for every "
             "target, not that they are sufficient.",
-    "note": "Sufficiency of the guards (no dependence-distance test in "
-            "fusion, no direction-vector test in interchange) and the "
-            "behaviour of the transformed Fortran are NOT decided.",
+    "note": "R2 shows from what the guards consult that fusion has no "
+            "dependence-distance test and interchange no dependence test "
+            "at all (known findings C05-a, C05-b with confirmed inputs). "
+            "Beyond that, sufficiency of the guards and the behaviour of "
+            "the transformed Fortran are NOT decided.",
     "technique": "must-pass-through (path-sensitive CFG reachability) over "
                  "a reviewed obligation table",
 }
@@ -133,6 +135,66 @@ TABLE = {
 }
 
 
+# vocabulary of a dependence test on index expressions / directions
+DISTANCE_FACTS = ("get_dependency_distance", "_get_dependency_distance",
+                  "SymbolicMaths", "sym_maths", ".equal(", "never_equal",
+                  "independent_iterations", "can_loop_be_parallelised",
+                  "_array_access_pairs_overlap", "_is_loop_carried",
+                  "solve_equal_for", "_independent_")
+ACCESS_FACTS = ("VariablesAccessInfo", "reference_accesses",
+                "DependencyTools", "get_input_parameters",
+                "independent_iterations")
+
+
+def closure_text(idx, cls, func, depth=2):
+    """text of func plus the methods of the same class it calls"""
+    txt = " ".join(ast.unparse(func).split())
+    if depth == 0:
+        return txt
+    for call in ast.walk(func):
+        if isinstance(call, ast.Call) and isinstance(call.func,
+                                                     ast.Attribute) and \
+                isinstance(call.func.value, ast.Name) and \
+                call.func.value.id in ("self", "cls"):
+            res = idx.find_method(cls, call.func.attr)
+            if res and res[1] is not func:
+                txt += " " + closure_text(idx, res[0], res[1], depth - 1)
+    return txt
+
+
+def check_sufficiency(idx, run):
+    """C05.R2: what the guards look at.  Fusing two loops is only safe when
+    the element an iteration reads is not written by a *later* iteration of
+    the other loop, which depends on the index expressions (a(i) vs a(i+1)),
+    not just on the position of the loop variable; interchanging two loops
+    needs the dependence directions of the nest."""
+    fcls = idx.get_class("LoopFuseTrans")
+    func = fcls.methods["_validate_written_array"]
+    txt = closure_text(idx, fcls, func)
+    run.check(
+        "C05.R2", any(f in txt for f in DISTANCE_FACTS),
+        "LoopFuseTrans._validate_written_array",
+        "written arrays: the index expressions of the loop variable are "
+        "compared",
+        "for an array written in one of the loops only the *position* of "
+        "the loop variable in the subscripts is compared (via _partition); "
+        "the subscript expressions never are: `do i: a(i)=b(i)` and "
+        "`do i: c(i)=a(i+1)` are fused, after which c(i) receives the old "
+        "a(i+1) instead of b(i+1)", loc(fcls.module, func))
+    scls = idx.get_class("LoopSwapTrans")
+    sfunc = scls.methods["validate"]
+    stxt = closure_text(idx, scls, sfunc)
+    run.check(
+        "C05.R2", any(f in stxt for f in ACCESS_FACTS + DISTANCE_FACTS),
+        "LoopSwapTrans.validate",
+        "interchange: the data accesses of the nest are examined",
+        "LoopSwapTrans.validate never looks at the variable accesses of "
+        "the loop nest: `do j=2,m; do i=1,n-1; a(i,j)=a(i+1,j-1)` "
+        "(dependence direction (<,>)) is interchanged, after which "
+        "a(i+1,j-1) is read before it is updated",
+        loc(scls.module, sfunc))
+
+
 def check(idx, run):
     run.explanation = __doc__
     check_table(idx, run, "C05.R1", TABLE)
@@ -156,4 +218,5 @@ def check(idx, run):
               "only induction variables are replaced",
               "assignments are replaced without consulting "
               "_is_induction_variable", loc(rcls.module, app))
-    run.assumptions = ["sufficiency of the guards is not decided"]
+    check_sufficiency(idx, run)
+    run.assumptions = ["beyond R2, sufficiency of the guards is not decided"]
